@@ -15,6 +15,7 @@ import (
 // path branched on is kept in the outcome. The questions are asked of the outcomes, so it does not matter
 // through which helpers, in which order or with which spelling the parser gets there.
 type ptFold struct {
+	deep    *ptDeep
 	ok      bool
 	why     string
 	pos     string
@@ -29,18 +30,16 @@ func ptSuccess(o cpOutcome) bool {
 	return isNil
 }
 
-// byteIs: what the path assumed about in[pos] == ch: +1 equal, -1 different, 0 nothing.
+// byteIs: what the path knows about in[pos] == ch: +1 equal, -1 different, 0 nothing (or not enough).
 func byteIs(o cpOutcome, pos int64, ch int64) int {
-	if t, ok := o.Decided[fmt.Sprintf("cmp:in[%d]==%d", pos, ch)]; ok {
-		if t {
-			return 1
-		}
+	s, ok := o.Bytes[fmt.Sprintf("in[%d]", pos)]
+	if !ok {
+		return 0
+	}
+	if !s.has(int(ch)) {
 		return -1
 	}
-	if t, ok := o.Decided[fmt.Sprintf("cmp:in[%d]!=%d", pos, ch)]; ok {
-		if t {
-			return -1
-		}
+	if s.count() == 1 {
 		return 1
 	}
 	return 0
@@ -59,7 +58,7 @@ func ptDateCall(o cpOutcome) *cpCall {
 func parseTimeByFold(P *Program, fn *ssa.Function) *ptFold {
 	pf := &ptFold{problem: map[string]string{}, pos: P.pos(fn.Pos())}
 	saveT, saveO, saveF := cpTolerant, cpMaxOutcomes, cpMaxForks
-	cpTolerant, cpMaxOutcomes, cpMaxForks = true, 4096, 96
+	cpTolerant, cpMaxOutcomes, cpMaxForks = true, 8192, 200
 	defer func() { cpTolerant, cpMaxOutcomes, cpMaxForks = saveT, saveO, saveF }()
 	opaque := func(g *ssa.Function) bool {
 		// the zone cache is another rule's business (TZ-KEY); its locking is not modelled
@@ -187,5 +186,53 @@ func parseTimeByFold(P *Program, fn *ssa.Function) *ptFold {
 		}
 	}
 	pf.ok = true
+	pf.deep = parseTimeDeep(P, fn, fold)
 	return pf
+}
+
+// ptPanics: the parser folded over every input length up to n, all byte values at once: which index, slice
+// and lookup instructions were executed, and at which of them some path ended in a run-time panic.
+type ptPanics struct {
+	ok      bool
+	why     string
+	n       int64
+	paths   int
+	panicAt map[ssa.Instruction]bool
+	touched map[ssa.Instruction]bool
+	unsure  map[ssa.Instruction]bool // executed with an offset or a length the fold does not know exactly
+}
+
+func parseNoPanic(P *Program, fn *ssa.Function, n int64) *ptPanics {
+	pp := &ptPanics{n: n, panicAt: map[ssa.Instruction]bool{}, touched: map[ssa.Instruction]bool{}, unsure: map[ssa.Instruction]bool{}}
+	saveT, saveO, saveF := cpTolerant, cpMaxOutcomes, cpMaxForks
+	cpTolerant, cpMaxOutcomes, cpMaxForks = true, 8192, 300
+	cpTouch, cpPanicAt, cpUnsure = pp.touched, pp.panicAt, pp.unsure
+	defer func() {
+		cpTolerant, cpMaxOutcomes, cpMaxForks = saveT, saveO, saveF
+		cpTouch, cpPanicAt, cpUnsure = nil, nil, nil
+	}()
+	opaque := func(g *ssa.Function) bool {
+		for _, cs := range callsIn(g) {
+			if cs.Static != nil && qualName(cs.Static) == "time.FixedZone" {
+				return true
+			}
+		}
+		return false
+	}
+	for l := int64(0); l <= n; l++ {
+		outs, _, ok, why := cpFoldOpt(P, fn, []cpVal{cpStrSym{ID: "in", Off: 0, Len: l}}, opaque)
+		if !ok {
+			pp.why = fmt.Sprintf("length %d: %s", l, why)
+			return pp
+		}
+		for _, o := range outs {
+			if o.Failed != "" {
+				pp.why = fmt.Sprintf("length %d: a path is outside the model: %s", l, o.Failed)
+				return pp
+			}
+		}
+		pp.paths += len(outs)
+	}
+	pp.ok = true
+	return pp
 }
